@@ -257,6 +257,16 @@ class Ev:
                     return [v.__dict__[f] for f in v.__dict__["_fields"]]
                 raise _ModelRaise("TypeError: not iterable")
             return list(m(v))
+        if isinstance(v, Sym):
+            c = getattr(self.methods, "classes", {}).get(v.name) if "." not in v.name else None
+            if c is not None:  # iterating an enumeration: its members in definition order
+                out = []
+                for n_ in c.body:
+                    if isinstance(n_, ast.Assign) and len(n_.targets) == 1 and isinstance(n_.targets[0], ast.Name) and not n_.targets[0].id.startswith("_"):
+                        iv = self.methods.int_enum_member(v.name, n_.targets[0].id) if hasattr(self.methods, "int_enum_member") else None
+                        out.append(iv if iv is not None else Sym(f"{v.name}.{n_.targets[0].id}"))
+                return out
+            raise Unsupported(f"{self.where}: iteration over {v.name}")
         if v is None or isinstance(v, (int, float, bool)) or callable(v):
             raise _ModelRaise(f"TypeError: {type(v).__name__} is not iterable")
         return list(v)
@@ -530,18 +540,23 @@ class Ev:
         return out
 
     def comp(self, n: ast.GeneratorExp | ast.ListComp | ast.SetComp) -> Any:
-        if len(n.generators) != 1:
-            raise self.bad(n, "nested comprehension")
-        g = n.generators[0]
-        out = []
+        out: list = []
         # the comprehension's own names (targets, walrus targets) are scoped to it: put back what they hid
-        own = {x.id for x in ast.walk(g.target) if isinstance(x, ast.Name)}
+        own = {x.id for g in n.generators for x in ast.walk(g.target) if isinstance(x, ast.Name)}
         saved = {k: self.env.get(k, _MISSING) for k in own}
-        try:
+
+        def level(i: int) -> None:
+            if i == len(n.generators):
+                out.append(self.ev(n.elt))
+                return
+            g = n.generators[i]
             for item in self.iterate(self.ev(g.iter)):
                 self.assign(g.target, item)
-                if all(self.ev(i) for i in g.ifs):
-                    out.append(self.ev(n.elt))
+                if all(self.truth(self.ev(c)) for c in g.ifs):
+                    level(i + 1)
+
+        try:
+            level(0)
         finally:
             for k, v in saved.items():
                 if v is _MISSING:
@@ -625,6 +640,8 @@ class Ev:
                         raise self.bad(n, "isinstance against a value the model cannot name as a class")
                 if isinstance(obj, Obj):
                     return any(k in names for k in obj.kinds)
+                if isinstance(obj, Sym) and "." in obj.name:
+                    return obj.name.split(".")[0] in names or "object" in names  # an enum member is an instance of its enumeration
                 prim = {"str": str, "int": int, "list": list, "tuple": tuple, "dict": dict, "set": set, "bool": bool, "frozenset": frozenset, "float": float, "bytes": bytes, "object": object}
                 # a primitive value is an instance of the primitive types named, never of a class of the model
                 hits = tuple(prim[x] for x in names if x in prim)
